@@ -581,7 +581,7 @@ def run_fixture_component(seed, tier, name):
             return None
         if t[0] in ("GENS",):
             return " ".join(t[:5])
-        if t[0] in ("GEN0",):
+        if t[0] in ("GEN0", "GENHI"):
             return " ".join(t[:4])
         if t[0] in ("PED",):
             return " ".join(t[:2])
@@ -604,7 +604,7 @@ def run_fixture_component(seed, tier, name):
         if k not in cur:
             res.disagreements.append((k, 40, "recorded by the reference revision, not produced by this build"))
         elif cur[k] != ref[k]:
-            what = {"GENS": "generator digest", "GEN0": "first generator", "PED": "Pedersen bases", "PROOF": "commitments / proof bytes re-proved with the recorded seed"}[k.split()[0]]
+            what = {"GENS": "generator digest", "GEN0": "first generator", "GENHI": "generator of a high party index", "PED": "Pedersen bases", "PROOF": "commitments / proof bytes re-proved with the recorded seed"}[k.split()[0]]
             res.disagreements.append((k, 40, "%s differs from the reference revision's recording" % what))
     for k in refv:
         if k not in curv:
